@@ -16,3 +16,226 @@ pub struct AdaptCounters {
     pub last_update: u64,
     pub has_initial_mass_matrix: bool,
 }
+
+// ------------------------------------------------------------------------------------------------
+// Hook H3: trajectory tap and direct drive of `nuts::draw` / `Hamiltonian::leapfrog` with an explicit
+// transformation. Everything below only observes or calls existing code.
+
+use std::cell::RefCell;
+
+/// One phase-space state as the integrator saw it.
+#[derive(Debug, Clone)]
+pub struct TapState {
+    /// true for the start state recorded by `initialize_trajectory`
+    pub start: bool,
+    pub index: i64,
+    /// original-space position and gradient
+    pub x: Vec<f64>,
+    pub gx: Vec<f64>,
+    /// whitened position, gradient and velocity
+    pub y: Vec<f64>,
+    pub gy: Vec<f64>,
+    pub v: Vec<f64>,
+    pub logp: f64,
+    pub logdet: f64,
+    pub kinetic: f64,
+    pub energy: f64,
+    pub initial_energy: f64,
+    pub transform_id: i64,
+    /// the leapfrog that produced this state was reported as a divergence
+    pub divergent: bool,
+    /// the density failed (recoverably) at this leapfrog: no state
+    pub failed: bool,
+}
+
+thread_local! {
+    static TAP: RefCell<Option<Vec<TapState>>> = const { RefCell::new(None) };
+}
+
+pub fn tap_enable() {
+    TAP.with(|t| *t.borrow_mut() = Some(Vec::new()));
+}
+
+pub fn tap_disable() {
+    TAP.with(|t| *t.borrow_mut() = None);
+}
+
+pub fn tap_enabled() -> bool {
+    TAP.with(|t| t.borrow().is_some())
+}
+
+pub fn tap_take() -> Vec<TapState> {
+    TAP.with(|t| t.borrow_mut().as_mut().map(std::mem::take).unwrap_or_default())
+}
+
+pub(crate) fn tap_push(s: TapState) {
+    TAP.with(|t| {
+        if let Some(v) = t.borrow_mut().as_mut() {
+            v.push(s)
+        }
+    });
+}
+
+/// Explicit affine transformation for the direct-drive entry points.
+#[derive(Debug, Clone)]
+pub enum VerifTransform {
+    Diag { stds: Vec<f64>, mean: Vec<f64> },
+    /// `vecs`: the eigenvectors as columns (each of length dim)
+    LowRank { stds: Vec<f64>, mean: Vec<f64>, vals: Vec<f64>, vecs: Vec<Vec<f64>>, mu: Vec<f64> },
+}
+
+#[derive(Debug, Clone)]
+pub struct VerifNutsOptions {
+    pub maxdepth: u64,
+    pub mindepth: u64,
+    pub check_turning: bool,
+    pub extra_doublings: u64,
+    pub max_energy_error: f64,
+    pub target_integration_time: Option<f64>,
+}
+
+#[derive(Debug, Clone)]
+pub struct DrawOutcome {
+    pub position: Vec<f64>,
+    pub index: i64,
+    pub depth: u64,
+    pub diverging: bool,
+    pub maxdepth_reached: bool,
+}
+
+struct NullCollector;
+impl<M: crate::Math, P: crate::dynamics::Point<M>> crate::nuts::Collector<M, P> for NullCollector {}
+
+fn col(v: &[f64]) -> faer::Col<f64> {
+    faer::Col::from_fn(v.len(), |i| v[i])
+}
+
+fn build_diag<M: crate::Math>(math: &mut M, stds: &[f64], mean: &[f64], kind: crate::KineticEnergyKind, step_size: f64) -> crate::dynamics::TransformedHamiltonian<M, crate::transform::DiagMassMatrix<M>> {
+    use crate::dynamics::Hamiltonian;
+    let mut mm = crate::transform::DiagMassMatrix::new(math, false);
+    let mut s = math.new_array();
+    math.read_from_slice(&mut s, stds);
+    let mut m = math.new_array();
+    math.read_from_slice(&mut m, mean);
+    mm.set_transform(math, &s, &m);
+    let mut h = crate::dynamics::TransformedHamiltonian::new(math, mm, kind);
+    *h.step_size_mut() = step_size;
+    h
+}
+
+fn build_lowrank<M: crate::Math>(
+    math: &mut M,
+    stds: &[f64],
+    mean: &[f64],
+    vals: &[f64],
+    vecs: &[Vec<f64>],
+    mu: &[f64],
+    kind: crate::KineticEnergyKind,
+    step_size: f64,
+) -> crate::dynamics::TransformedHamiltonian<M, crate::transform::LowRankMassMatrix<M>> {
+    use crate::dynamics::Hamiltonian;
+    let mut mm = crate::transform::LowRankMassMatrix::new(math, crate::LowRankSettings::default());
+    let d = stds.len();
+    let vm = faer::Mat::from_fn(d, vecs.len(), |i, j| vecs[j][i]);
+    mm.update(math, col(stds), col(mean), col(vals), vm, col(mu));
+    let mut h = crate::dynamics::TransformedHamiltonian::new(math, mm, kind);
+    *h.step_size_mut() = step_size;
+    h
+}
+
+fn draw_with<M: crate::Math, T: crate::transform::Transformation<M>, R: rand::Rng + ?Sized>(
+    math: &mut M,
+    ham: &mut crate::dynamics::TransformedHamiltonian<M, T>,
+    position: &[f64],
+    rng: &mut R,
+    o: &VerifNutsOptions,
+) -> Result<DrawOutcome, String> {
+    use crate::dynamics::{Hamiltonian, Point};
+    let options = crate::nuts::NutsOptions {
+        maxdepth: o.maxdepth,
+        mindepth: o.mindepth,
+        check_turning: o.check_turning,
+        store_divergences: true,
+        target_integration_time: o.target_integration_time,
+        extra_doublings: o.extra_doublings,
+        max_energy_error: o.max_energy_error,
+    };
+    let mut state = ham.init_state(math, position).map_err(|e| format!("{e}"))?;
+    let (out, info) = crate::nuts::draw(math, &mut state, rng, ham, &options, &mut NullCollector).map_err(|e| format!("{e}"))?;
+    Ok(DrawOutcome {
+        position: math.box_array(out.point().position()).into_vec(),
+        index: out.point().index_in_trajectory(),
+        depth: info.depth,
+        diverging: info.divergence_info.is_some(),
+        maxdepth_reached: info.reached_maxdepth,
+    })
+}
+
+/// One NUTS transition (the crate-private `nuts::draw`) from `position` with an explicit transformation,
+/// step size and tree options, using the caller's random number generator. The momentum is drawn through
+/// `Math::array_gaussian`, which the harness's Math wrapper can script.
+pub fn nuts_draw<M: crate::Math, R: rand::Rng + ?Sized>(
+    math: &mut M,
+    transform: &VerifTransform,
+    kind: crate::KineticEnergyKind,
+    step_size: f64,
+    position: &[f64],
+    rng: &mut R,
+    options: &VerifNutsOptions,
+) -> Result<DrawOutcome, String> {
+    match transform {
+        VerifTransform::Diag { stds, mean } => {
+            let mut h = build_diag(math, stds, mean, kind, step_size);
+            draw_with(math, &mut h, position, rng, options)
+        }
+        VerifTransform::LowRank { stds, mean, vals, vecs, mu } => {
+            let mut h = build_lowrank(math, stds, mean, vals, vecs, mu, kind, step_size);
+            draw_with(math, &mut h, position, rng, options)
+        }
+    }
+}
+
+fn leapfrogs_with<M: crate::Math, T: crate::transform::Transformation<M>, R: rand::Rng + ?Sized>(
+    math: &mut M,
+    ham: &mut crate::dynamics::TransformedHamiltonian<M, T>,
+    position: &[f64],
+    rng: &mut R,
+    forward: &[bool],
+) -> Result<(), String> {
+    use crate::dynamics::{Direction, Hamiltonian, LeapfrogResult, Point};
+    let mut state = ham.init_state(math, position).map_err(|e| format!("{e}"))?;
+    ham.initialize_trajectory(math, &mut state, true, rng).map_err(|e| format!("{e}"))?;
+    let e0 = state.point().initial_energy();
+    for f in forward {
+        let dir = if *f { Direction::Forward } else { Direction::Backward };
+        match ham.leapfrog(math, &state, dir, 1.0, e0, f64::INFINITY, &mut NullCollector) {
+            LeapfrogResult::Ok(next) => state = next,
+            LeapfrogResult::Divergence(_) => return Err("divergence".into()),
+            LeapfrogResult::Err(e) => return Err(format!("{e:?}")),
+        }
+    }
+    Ok(())
+}
+
+/// A sequence of single leapfrog steps (`Hamiltonian::leapfrog`) from `position` with a momentum drawn
+/// through `Math::array_gaussian`; every state is delivered through the tap.
+pub fn leapfrog_sequence<M: crate::Math, R: rand::Rng + ?Sized>(
+    math: &mut M,
+    transform: &VerifTransform,
+    kind: crate::KineticEnergyKind,
+    step_size: f64,
+    position: &[f64],
+    rng: &mut R,
+    forward: &[bool],
+) -> Result<(), String> {
+    match transform {
+        VerifTransform::Diag { stds, mean } => {
+            let mut h = build_diag(math, stds, mean, kind, step_size);
+            leapfrogs_with(math, &mut h, position, rng, forward)
+        }
+        VerifTransform::LowRank { stds, mean, vals, vecs, mu } => {
+            let mut h = build_lowrank(math, stds, mean, vals, vecs, mu, kind, step_size);
+            leapfrogs_with(math, &mut h, position, rng, forward)
+        }
+    }
+}
